@@ -236,12 +236,7 @@ func (p ngPeer) serveConn(ctx context.Context, conn Connection, done chan<- stru
 }
 
 // ngSession: connect the real client through ct, then list and call.
-func ngSession(ctx context.Context, ct Transport, req string) (obs string, tags []string, cs *ClientSession) {
-	client := NewClient(&Implementation{Name: "verif-client", Version: "1"}, nil)
-	var copts *ClientSessionOptions
-	if req != "default" {
-		copts = &ClientSessionOptions{ProtocolVersion: ngUnhex(req[1:])}
-	}
+func ngSession(ctx context.Context, client *Client, copts *ClientSessionOptions, ct Transport) (obs string, tags []string, cs *ClientSession) {
 	cs, err := client.Connect(ctx, ct, copts)
 	if err != nil {
 		return "error", []string{"connect-error", "err-" + ngErrClass(err)}, nil
@@ -307,7 +302,7 @@ func ngRunForeign(c ngForeignCell) (obs string, tags []string) {
 	default:
 		return "bad-op", nil
 	}
-	obs, tags, cs := ngSession(ctx, ct, c.req)
+	obs, tags, cs := ngSession(ctx, NewClient(&Implementation{Name: "verif-client", Version: "1"}, nil), ngOpts(c.req), ct)
 	if cs != nil {
 		cs.Close()
 	}
@@ -432,10 +427,24 @@ func (s ngStep) op() string {
 
 // ngShared is ONE Server value and what a case keeps alive around it.
 type ngShared struct {
-	srv     *Server
-	ctx     context.Context
-	http    map[string]*httptest.Server // one endpoint per streamable configuration / SSE mask
-	cleanup []func()
+	srv      *Server
+	ctx      context.Context
+	http     map[string]*httptest.Server // one endpoint per streamable configuration / SSE stack
+	handlers []http.Handler
+	cleanup  []func()
+	// the client side of the case: ONE Client value, and ONE options value per requested-version token
+	// (a caller that keeps its ClientSessionOptions and reconnects with it)
+	client *Client
+	opts   map[string]*ClientSessionOptions
+}
+
+func (sh *ngShared) optsFor(req string) *ClientSessionOptions {
+	if o, ok := sh.opts[req]; ok {
+		return o
+	}
+	o := ngOpts(req)
+	sh.opts[req] = o
+	return o
 }
 
 func ngNewServer() *Server {
@@ -448,12 +457,18 @@ func ngNewServer() *Server {
 }
 
 func ngNewShared(ctx context.Context) *ngShared {
-	return &ngShared{srv: ngNewServer(), ctx: ctx, http: map[string]*httptest.Server{}}
+	return &ngShared{srv: ngNewServer(), ctx: ctx, http: map[string]*httptest.Server{},
+		client: NewClient(&Implementation{Name: "verif-client", Version: "1"}, nil), opts: map[string]*ClientSessionOptions{}}
 }
 
 func (sh *ngShared) close() {
 	for i := len(sh.cleanup) - 1; i >= 0; i-- {
 		sh.cleanup[i]()
+	}
+	for _, h := range sh.handlers {
+		if st, ok := h.(*ngStateful); ok {
+			st.closeAll()
+		}
 	}
 	for _, ts := range sh.http {
 		ts.CloseClientConnections()
@@ -465,7 +480,9 @@ func (sh *ngShared) endpoint(key string, mk func() http.Handler) *httptest.Serve
 	if ts, ok := sh.http[key]; ok {
 		return ts
 	}
-	ts := httptest.NewServer(mk())
+	h := mk()
+	sh.handlers = append(sh.handlers, h)
+	ts := httptest.NewServer(h)
 	sh.http[key] = ts
 	return ts
 }
@@ -479,58 +496,21 @@ func (sh *ngShared) step(s ngStep) (obs string, tags []string) {
 		}
 	}()
 	c := s.cell
-	mask := ngMask(c.subset)
-	wrap := func(t Transport) Transport {
-		if mask == nil {
-			return t
-		}
-		return &ngWrap{inner: t, mask: mask}
+	ct, after, _, errObs := ngServerSide(sh.ctx, sh.srv, c, sh.endpoint)
+	if errObs == "bad-op" {
+		return errObs, nil
 	}
-	var ct Transport
-	var after []func()
-	switch c.kind {
-	case "mem":
-		a, b := NewInMemoryTransports()
-		ss, err := sh.srv.Connect(sh.ctx, wrap(b), nil)
-		if err != nil {
-			return "error server-connect", []string{"server-connect-failed"}
+	if errObs != "" {
+		for _, f := range after {
+			f()
 		}
-		after = append(after, func() { ss.Close() })
-		ct = a
-	case "pipe":
-		r1, w1 := io.Pipe()
-		r2, w2 := io.Pipe()
-		ss, err := sh.srv.Connect(sh.ctx, wrap(&IOTransport{Reader: r1, Writer: w2}), nil)
-		if err != nil {
-			return "error server-connect", []string{"server-connect-failed"}
-		}
-		after = append(after, func() { ss.Close(); r1.Close(); r2.Close(); w1.Close(); w2.Close() })
-		ct = &IOTransport{Reader: r2, Writer: w1}
-	case "sse":
-		ts := sh.endpoint("sse/"+c.subset, func() http.Handler {
-			if mask == nil {
-				return NewSSEHandler(func(*http.Request) *Server { return sh.srv }, nil)
-			}
-			return &ngSSE{srv: sh.srv, mask: mask, sess: map[string]*SSEServerTransport{}}
-		})
-		hc := &http.Client{Transport: &http.Transport{}}
-		after = append(after, hc.CloseIdleConnections)
-		ct = &SSEClientTransport{Endpoint: ts.URL, HTTPClient: hc}
-	case "stateful", "stateless":
-		ts := sh.endpoint(fmt.Sprintf("%s/%v/%v", c.kind, c.json, c.store), func() http.Handler {
-			opts := &StreamableHTTPOptions{Stateless: c.kind == "stateless", JSONResponse: c.json}
-			if c.store {
-				opts.EventStore = NewMemoryEventStore(nil)
-			}
-			return NewStreamableHTTPHandler(func(*http.Request) *Server { return sh.srv }, opts)
-		})
-		hc := &http.Client{Transport: &http.Transport{}}
-		after = append(after, hc.CloseIdleConnections)
-		ct = &StreamableClientTransport{Endpoint: ts.URL, HTTPClient: hc}
-	default:
-		return "bad-op", nil
+		return errObs, []string{"server-connect-failed"}
 	}
-	obs, tags, cs := ngSession(sh.ctx, ct, c.req)
+	// the server-side closers run last
+	for i, j := 0, len(after)-1; i < j; i, j = i+1, j-1 {
+		after[i], after[j] = after[j], after[i]
+	}
+	obs, tags, cs := ngSession(sh.ctx, sh.client, sh.optsFor(c.req), ct)
 	if cs != nil {
 		after = append([]func(){func() { cs.Close() }}, after...)
 	}
@@ -545,9 +525,7 @@ func (sh *ngShared) step(s ngStep) (obs string, tags []string) {
 		fin()
 	}
 	tags = append(tags, "seq", "kind-"+c.kind, "req-"+ngReqClass(c.req))
-	if c.subset != "none" {
-		tags = append(tags, "subset")
-	}
+	tags = append(tags, ngSubsetTags(c.subset)...)
 	return obs, tags
 }
 
@@ -558,7 +536,7 @@ var ngKinds = []string{"mem", "pipe", "sse", "stateful", "stateless"}
 // hold flags.
 func ngSeqCases(rounds int) [][]ngStep {
 	var cases [][]ngStep
-	grid := []string{"default", "s" + hxs(protocolVersion20251125), "s" + hxs("2027-01-01")}
+	grid := []string{"default", "empty", "s" + hxs(protocolVersion20251125), "s" + hxs("2027-01-01")}
 	for _, k1 := range ngKinds {
 		for _, k2 := range ngKinds {
 			for _, r1 := range grid {
@@ -572,19 +550,26 @@ func ngSeqCases(rounds int) [][]ngStep {
 		}
 	}
 	rng := verifRng(71)
-	reqs := []string{"default", "default", "s" + hxs(protocolVersion20260728), "s" + hxs(protocolVersion20251125), "s" + hxs(protocolVersion20250618),
+	reqs := []string{"default", "empty", "empty", "s" + hxs(protocolVersion20260728), "s" + hxs(protocolVersion20251125), "s" + hxs(protocolVersion20250618),
 		"s" + hxs(protocolVersion20241105), "s" + hxs("2027-01-01"), "s" + hxs("2024-01-01"), "s" + hxs("2026-07-28x")}
 	subs := ngSubsets()
 	mk := func(kind string) ngStep {
 		c := ngCell{req: reqs[rng.Intn(len(reqs))], kind: kind, subset: "none"}
+		wraps := ngWrapSubsets()
 		switch kind {
 		case "mem", "pipe", "sse":
-			if rng.Intn(2) == 0 {
+			switch rng.Intn(4) {
+			case 0, 1:
 				c.subset = subs[rng.Intn(len(subs))]
+			case 2:
+				c.subset = wraps[rng.Intn(len(wraps))]
 			}
 		default:
 			c.json = rng.Intn(2) == 0
 			c.store = rng.Intn(3) == 0
+			if kind == "stateful" && rng.Intn(3) == 0 { // the hand-written handler with a wrapped per-session transport
+				c.subset = append(wraps, "m11111", "m01111", "m00100")[rng.Intn(len(wraps)+3)]
+			}
 		}
 		return ngStep{c, rng.Intn(3) != 0}
 	}
@@ -626,7 +611,7 @@ func ngRunOps(ops []string) []ngRec {
 	for _, ln := range ops {
 		toks := strings.Fields(ln)
 		switch {
-		case len(toks) == 6 && toks[0] == "connect":
+		case (len(toks) == 6 || len(toks) == 7) && toks[0] == "connect":
 			c, _ := ngParse(toks)
 			obs, tags := ngRun(c)
 			out = append(out, ngRec{c.op(), obs, tags})
